@@ -8,6 +8,7 @@ and the wires are compared with the model (view update of the edit).
 input formats (JSON):
   history  {"regs":[ne,np,nc], "start":[op,...], "edits":[edit,...]}
   random   {"regs":[ne,np,nc], "seed":s, "len":L, "fam":"A"|"B"}      (the history is re-generated from the seed)
+  random (two-digit registers)  {"regs":[ne,np,nc], "seed":s, "len":L, "focus":[[t,i],...], "cfocus":[c,...], "cap":[e,p,c]}
 edits: ["add",op] ["ins",op,[pos..]] ["rm",k] ["rep",k,op] ["unwrap"] ["group"] ["rmid"] ["addreg",t] ["copy"]
 op descriptors: see refsem/dagmodel.py
 """
@@ -368,10 +369,16 @@ class Run:
             else:
                 q = dm.qregs(d)
                 # positions are taken modulo the wire length: an earlier insertion of the history may have been skipped
-                pos = [p % (len(m.wires[dm.key(r)]) + 1) for r, p in zip(q, ed[2])]
+                # a quantum register the op names but the circuit does not have yet (next free index) is created by
+                # insert_at itself; its only edge is (<key>_in, <key>_out, <key>)
+                fresh = [dm.key(r) not in m.wires for r in q]
+                pos = [0 if f else p % (len(m.wires[dm.key(r)]) + 1) for r, p, f in zip(q, ed[2], fresh)]
                 # classical registers named by the op are created by insert_at before the edges are looked up
-                es = [self.edge(dm.key(r), p) for r, p in zip(q, pos)]
-                if len(es) == 2:
+                es = [
+                    (f"{dm.key(r)}_in", f"{dm.key(r)}_out", dm.key(r)) if f else self.edge(dm.key(r), p)
+                    for r, p, f in zip(q, pos, fresh)
+                ]
+                if len(es) == 2 and not any(fresh):
                     bad = c.find_incompatible_edges(es[0])
                     if es[1] in bad:
                         self.trace[-1] = ed + ["skipped:incompatible"]
@@ -623,6 +630,131 @@ def enumerate_histories(regs, start, fam, depth, rich_first):
     return [{"regs": list(regs), "start": start, "edits": h} for h in out]
 
 
+# ---------------------------------------------------------------------------------------------- two-digit registers
+# (H3) register indices >= 10: wire keys "p10", "e11", "c12" have two digits and share a prefix with "p1", "e1", "c1".
+# The alphabets below range over a small FOCUS set of registers of a circuit with 10..14 registers per type, so that
+# every edit kind is driven on two-digit wires (and on the one-digit wire with the same leading digit) while the
+# enumeration stays small.
+def focus_alphabet(Q, cs, fam, rich):
+    """ops over the focus qubits Q and the focus classical registers cs (same op kinds as op_alphabet)"""
+    one = ["H", "I"] + (["P", "X"] if rich else [])
+    wr = [["H", "P"]] + ([["I"], ["P", "H", "X"]] if rich else [])
+    out = []
+    for q in Q:
+        out += [["g", x, q] for x in one]
+        out += [["w", w, q] for w in wr]
+    cs = list(cs) or [0]
+    if fam == "A":
+        for q in Q[: (None if rich else 2)]:
+            out.append(["mz", q, cs[0]])
+    pairs = [(a, b) for a in Q for b in Q if a != b]
+    for a, b in pairs:
+        out.append(["cx", a, b])
+        if rich:
+            out.append(["cz", a, b])
+    for a, b in pairs:
+        if a[0] == "e" and (rich or b[0] == "p"):
+            out.append(["mcr", a, b, cs[-1]])
+            if rich:
+                out.append(["ccx", a, b, cs[0]])
+                out.append(["ccz", a, b, cs[len(cs) // 2]])
+    return out
+
+
+def focus_now(m, focus, cfocus):
+    """the focus registers present in state m, plus the highest-index register of every type (so that a register
+    created by an edit - addreg, or add of an op naming the next free index - is edited by the following edits)"""
+    Q = [list(q) for q in focus if q[1] < m.n[q[0]]]
+    for t in "ep":
+        if m.n[t] and [t, m.n[t] - 1] not in Q:
+            Q.append([t, m.n[t] - 1])
+    C = [c for c in cfocus if c < m.n["c"]]
+    if m.n["c"] and m.n["c"] - 1 not in C:
+        C.append(m.n["c"] - 1)
+    return Q, sorted(C)
+
+
+def options_focus(m, focus, cfocus, fam, rich):
+    """all edits offered in model state m, restricted to the focus registers"""
+    Q, C = focus_now(m, focus, cfocus)
+    A = focus_alphabet(Q, C, fam, rich)
+    eds = [["add", d] for d in A]
+    # ops that create the next free register of each type (register-adding edits through add / insert_at)
+    eds.append(["add", ["g", "H", ["e", m.n["e"]]]])
+    eds.append(["add", ["cx", Q[0], ["p", m.n["p"]]]])
+    if fam == "A":
+        eds.append(["add", ["mz", Q[-1], m.n["c"]]])
+    else:
+        eds.append(["add", ["ccx", Q[0], Q[-1], m.n["c"]]])
+    eds.append(["add", ["mcr", ["e", m.n["e"]], ["p", m.n["p"]], m.n["c"]]])
+    eds.append(["add", ["g", "H", ["p", m.n["p"] + 1]]])  # a gap in the numbering must be refused
+    eds.append(["add", ["ccz", Q[0], Q[-1], m.n["c"] + 1]])  # gap in the classical numbering
+    for d in A:
+        q = dm.qregs(d)
+        spans = [range(len(m.wires[dm.key(r)]) + 1) for r in q]
+        for pos in itertools.product(*spans):
+            eds.append(["ins", d, list(pos)])
+    ids = m.op_ids()
+    for k in range(len(ids)):
+        eds.append(["rm", k])
+        old = m.ops[ids[k]]
+        if old[0] in ("g", "w"):
+            alts = [["g", "P", None], ["w", ["H", "X"], None]]
+        elif old[0] in ("cx", "cz"):
+            alts = [["cz" if old[0] == "cx" else "cx"]]
+        elif old[0] in ("ccx", "ccz", "mcr"):
+            alts = [["ccz"], ["mcr"]] if old[0] == "ccx" else [["ccx"]]
+        else:
+            alts = [["mz"]]
+        for a in alts:
+            eds.append(["rep", k, a])
+    eds += [["unwrap"], ["rmid"], ["group"], ["addreg", "e"], ["addreg", "p"], ["addreg", "c"], ["copy"]]
+    return eds
+
+
+def enumerate_focus_histories(regs, start, focus, cfocus, fam, depth, rich_first):
+    """all edit histories of length <= depth offered by options_focus() from the start circuit (same treatment of
+    cyclic two-qubit insertions as enumerate_histories)"""
+    m0 = dm.WireModel(*regs)
+    for d in start:
+        model_apply(m0, ["add", d])
+    out = []
+
+    def rec(m, hist, left):
+        out.append(hist)
+        if left == 0:
+            return
+        for ed in options_focus(m, focus, cfocus, fam, rich_first and not hist):
+            if ed[0] == "ins" and len(ed[2]) == 2 and m.insert_would_cycle(ed[1], ed[2]):
+                out.append(hist + [ed])
+                continue
+            m2 = clone(m)
+            model_apply(m2, ed)
+            rec(m2, hist + [ed], left - 1)
+
+    rec(m0, [], depth)
+    return [{"regs": list(regs), "start": start, "edits": h} for h in out]
+
+
+# start circuits on >= 10 registers per type: few operations, all on wires with index >= 9 or on the one-digit wire that
+# shares their leading digit (e1/e10/e11, p1/p10/p12, c1/c10/c11)
+HI_STARTS = [
+    # (regs, focus qubits, focus classical registers, start ops)
+    ((12, 13, 12), [["e", 1], ["e", 11], ["p", 10], ["p", 12]], [1, 11],
+     [["g", "H", ["e", 11]], ["cx", ["e", 11], ["p", 10]], ["w", ["H", "P"], ["p", 12]], ["mcr", ["e", 11], ["p", 12], 11],
+      ["g", "I", ["p", 10]], ["cx", ["e", 1], ["e", 11]]]),
+    ((11, 11, 11), [["e", 10], ["p", 1], ["p", 10]], [1, 10],
+     [["cx", ["e", 10], ["p", 10]], ["g", "H", ["p", 10]], ["cx", ["e", 10], ["p", 1]], ["mz", ["p", 10], 10], ["g", "I", ["e", 10]]]),
+    ((2, 12, 1), [["e", 0], ["p", 1], ["p", 11]], [0],
+     [["cx", ["e", 0], ["p", 11]], ["g", "H", ["p", 11]], ["g", "I", ["p", 11]], ["cx", ["e", 0], ["p", 1]], ["w", ["P", "H"], ["p", 1]]]),
+    ((12, 1, 0), [["e", 1], ["e", 10], ["e", 11]], [],
+     [["cx", ["e", 1], ["e", 10]], ["cz", ["e", 10], ["e", 11]], ["g", "H", ["e", 11]], ["w", ["I"], ["e", 10]]]),
+    # the registers with index 10 are created by the edits themselves (addreg / add of an op naming the next free index)
+    ((10, 10, 10), [["e", 1], ["e", 9], ["p", 9]], [1, 9],
+     [["cx", ["e", 9], ["p", 9]], ["g", "H", ["p", 9]], ["mcr", ["e", 9], ["p", 9], 9]]),
+]
+
+
 # ---------------------------------------------------------------------------------------------- items
 @S.item(
     "history.exhaustive",
@@ -749,6 +881,100 @@ def compat_case(inp):
                         return s
                     n_ok += 1
     return None
+
+
+@S.item(
+    "history.two_digit_registers",
+    site=SITE + " (add, insert_at, remove_op, replace_op, unwrap_nodes, group_one_qubit_gates, remove_identity, add_*_register, copy)",
+    bound="circuits with 10..13 registers per type (HI_STARTS: (12e,13p,12c), (11e,11p,11c), (2e,12p,1c), (12e,1p,0c) and (10e,10p,10c) "
+    "where index 10 is created by the edits), start circuits of 3-6 ops on the wires e1/e10/e11, p1/p9/p10/p11/p12, c1/c9/c10/c11: "
+    "every edit history of length <= 2 (quick: length 2 over the reduced alphabet, first edit rich for the 3 smaller focus sets; "
+    "thorough: first edit rich everywhere, and length 3 from the two smallest starts) offered by options_focus() - all add / "
+    "insert positions of every op kind on the focus wires, every removable node, class replacements, unwrap, group, "
+    "remove_identity, register additions (also through ops naming the next free index, gaps refused), copy; WF (incl. EVERY "
+    "edge's reg/reg_type attributes against its key and wire, node_dict, edge_dict) + view update checked after every edit",
+    exhaustive=True,
+    clause="after any sequence of edits: wires, indexes, edge attributes - on registers whose index has two digits",
+)
+def hi_history_case(inp):
+    return run_history(inp)
+
+
+@S.item(
+    "history.two_digit_registers_random",
+    site=SITE,
+    bound="seeded random histories (quick: 64 x 150 edits, thorough: 300 x 300 edits) of all edit kinds on circuits that start with "
+    "9..12 registers per type and grow to at most 14 (addreg, ops naming the next free index), the ops drawn over a focus of 5-6 "
+    "quantum and 3 classical registers most of which have index >= 10 (plus index 1 and 9); families A and B; WF + view after every edit",
+    clause="after any sequence of edits (long histories) on registers whose index has two digits",
+)
+def random_hi_case(inp):
+    rng = np.random.default_rng([inp["seed"], 1210])
+    r = Run(inp["regs"], deep=False)
+    s = r.check("construction")
+    if s:
+        return s
+    fam = inp["fam"]
+    cap = dict(zip("epc", inp["cap"]))
+    for step in range(inp["len"]):
+        m = r.m
+        n_ops = len(m.ops)
+        Q, C = focus_now(m, inp["focus"], inp["cfocus"])
+        A = focus_alphabet(Q, C, fam, True)
+        x = rng.random()
+        p_add = 0.5 if n_ops < 14 else 0.25
+        if x < p_add:
+            d = A[rng.integers(len(A))]
+            if rng.random() < 0.45:
+                ed = ["add", d] + ([1] if rng.random() < 0.1 else [])
+            else:
+                pos = [int(rng.integers(len(m.wires[dm.key(q)]) + 1)) for q in dm.qregs(d)]
+                ed = ["ins", d, pos]
+        elif x < p_add + 0.25:
+            ed = ["rm", int(rng.integers(max(1, n_ops)))]
+        elif x < p_add + 0.37:
+            ids = m.op_ids()
+            if not ids:
+                continue
+            k = int(rng.integers(len(ids)))
+            old = m.ops[ids[k]]
+            cands = {"g": [["g", "Z"], ["w", ["P", "H"]], ["g", "I"]], "w": [["g", "Y"], ["w", ["X"]]], "cx": [["cz"]], "cz": [["cx"]],
+                     "ccx": [["mcr"], ["ccz"]], "ccz": [["ccx"]], "mcr": [["ccx"]], "mz": [["mz"]]}[old[0]]
+            a = cands[rng.integers(len(cands))]
+            ed = ["rep", k, a + [None] if a[0] in ("g", "w") else a] + ([1] if rng.random() < 0.3 else [])
+        else:
+            y = rng.random()
+            if y < 0.2:
+                ed = ["unwrap"]
+            elif y < 0.4:
+                ed = ["rmid"]
+            elif y < 0.6:
+                ed = ["group"]
+            elif y < 0.72:
+                ed = ["copy"]
+            elif y < 0.84:
+                t = "epc"[rng.integers(3)]
+                if m.n[t] >= cap[t]:
+                    continue
+                ed = ["addreg", t]
+            elif y < 0.88:
+                ed = ["add", ["g", "H", ["e", m.n["e"] + 1]]]  # gap: must be refused
+            else:
+                # an op naming the next free register of one type (created by add / insert_at itself)
+                t = "epc"[rng.integers(3)]
+                if m.n[t] >= cap[t]:
+                    continue
+                if t == "c":
+                    d = ["ccx", Q[0], Q[-1], m.n["c"]] if fam == "B" or rng.random() < 0.5 else ["mz", Q[0], m.n["c"]]
+                elif t == "e":
+                    d = ["cx", ["e", m.n["e"]], Q[-1]]
+                else:
+                    d = ["cx", Q[0], ["p", m.n["p"]]]
+                ed = ["add", d] if rng.random() < 0.6 else ["ins", d, [0, 0][: len(dm.qregs(d))]]
+        s = r.apply(ed)
+        if s:
+            return f"{s} | last edits {r.trace[-6:]}"
+    return r.check_shadow()
 
 
 GROUP_NO_LABEL = [
